@@ -5,7 +5,7 @@
    restated below without the checker.  Not in the model: JSON-schema validity and uuid4 uniqueness
    of the real documents (checked on the implementation side for every emitted document of a sample). *)
 From Coq Require Import List ZArith Bool.
-From BV Require Import Engine.RE Engine.REInst Engine.DocMon Proofs.RE_Docs Proofs.RE_DocsMon Proofs.RE_DocsCor.
+From BV Require Import Engine.RE Engine.REInst Engine.DocMon Proofs.RE_Docs Proofs.RE_DocsMon Proofs.RE_DocsCor Proofs.RE_DocsInv.
 Import ListNotations.
 
 (* the stepped trace of every run is accepted by the document monitor *)
@@ -48,26 +48,18 @@ Theorem C01_run_structure :
 Proof. exact docs_structure_all. Qed.
 Print Assumptions C01_run_structure.
 
-(* "once the RunEngine is idle again": exactly one RunStop per started run.  The state fact
-   "idle => no bundler" is the invariant proved in Proofs/RE_Inv.v (need_inv_idle_no_bundlers);
-   it enters here as a premise until the two files are connected. *)
-Definition C01_full : Prop :=
+(* "once the RunEngine is idle again": exactly one RunStop per started run (at most one by (ii), at
+   least one here).  Uses the state invariant of Proofs/RE_Inv.v: an idle engine has no bundler left.
+   [~ In (OBad 1)] excludes traces on which the model's straight-line interpreter ran out of fuel (the
+   model reports that instead of going on silently; it never happened on any replayed run). *)
+Theorem C01_all_stopped_when_idle :
   forall (P : Type) (presume : P -> input -> outcome P) (plan_of : nat -> P)
          (D : Type) (dev : D -> nat -> devmeth -> D * devres)
          (d : D) (paus stag : list nat) (rec : bool) (evs : list event),
     let r := run P presume plan_of D dev (init P D d paus stag rec) evs in
     ~ In (OBad 1) (snd r) -> state P D (fst r) = Idle ->
     forall u, In (DStart u) (docs_of (snd r)) -> exists xs rs num, In (DStop u xs rs num) (docs_of (snd r)).
-
-Theorem C01_all_stopped_when_idle :
-  forall (P : Type) (presume : P -> input -> outcome P) (plan_of : nat -> P)
-         (D : Type) (dev : D -> nat -> devmeth -> D * devres),
-    need_inv_idle_no_bundlers P presume plan_of D dev ->
-    forall (d : D) (paus stag : list nat) (rec : bool) (evs : list event),
-    let r := run P presume plan_of D dev (init P D d paus stag rec) evs in
-    ~ In (OBad 1) (snd r) -> state P D (fst r) = Idle ->
-    forall u, In (DStart u) (docs_of (snd r)) -> exists xs rs num, In (DStop u xs rs num) (docs_of (snd r)).
-Proof. exact docs_all_stopped_when_idle. Qed.
+Proof. exact docs_all_stopped_when_idle_closed. Qed.
 Print Assumptions C01_all_stopped_when_idle.
 
 (* non-vacuity: a real schedule (two nested keyed runs, interruption recording, a pause and a resume;
